@@ -4,6 +4,12 @@ import setcheck
 
 
 def check(run, tier, seed, replay=None):
+    if replay and "family" in json.load(open(replay))["replay"].get("scenario", {}):
+        import vlib
+        vlib.std_proof_stage(run, "C03")
+        vlib.build_harness()
+        delegated_stage(run, tier, seed, json.load(open(replay))["replay"]["scenario"])
+        return
     if replay and "sliced" in json.load(open(replay))["replay"]["scenario"]:
         import vlib, C14
         vlib.std_proof_stage(run, "C03")
@@ -22,6 +28,36 @@ def check(run, tier, seed, replay=None):
         # the gate / the Available condition rest on what the phase reconciler records from the prober (machinery of C17)
         import C17
         C17.probe_stage(run, "C03", tier, seed, "C03 the gate opens although a probe of an object of an earlier phase fails: the phase reconciler does not record a failing probe (e.g. one with an empty message)")
+        delegated_stage(run, tier, seed)
+
+
+ID_DLG = ("C03 an earlier phase delegated to an ObjectSetPhase does not gate the rollout like the in-process phase (reported Available "
+          "while its objects fail their probes / later phase written early / wrong phase named)")
+
+
+def delegated_stage(run, tier, seed, replay_sc=None):
+    """The gate when the earlier phase is delegated: real ObjectSet + ObjectSetPhase controllers (machinery and theorems of
+    C15, props/C15.v; DelegationProofs.v), every delegation mask of 2-3 phases plus seeded random rollouts."""
+    import vlib, dlglib as dl, C15 as dlg
+    if replay_sc is not None:
+        scs = [replay_sc]
+    else:
+        r = vlib.rng(seed, "C03-dlg")
+        scs = []
+        for nph in (2, 3):
+            for m in dl.masks(nph):
+                if any(m):
+                    # with and without the actor that makes Widgets ready: without it the in-process twin stays gated
+                    for kubelet in (True, False):
+                        sc = dl.scenario_rollout(r, mask=m, nph=nph, strategy="native", policy="rr")
+                        sc["kubelet"] = kubelet
+                        scs.append(sc)
+        for i in range(10 if tier == "quick" else 300):
+            scs.append(dl.scenario_rollout(r, strategy="annot" if i % 4 == 3 else "native"))
+        scs = [dl.place(sc) for sc in scs]
+    n, passes, _, _ = dlg.delegation_stage(run, "C03", scs, id_mon=ID_DLG, id_twin=ID_DLG, id_own=ID_DLG)
+    run.cov["evaluations"] = run.cov.get("evaluations", 0) + n
+    run.cov["delegated_rollouts"] = n
 
 
 ID_SLICE = ("C03 a phase is rolled out (or availability reported) although the slice holding an earlier phase's objects "
